@@ -6,10 +6,12 @@
 package simnet
 
 import (
+	"bufio"
 	"bytes"
 	"errors"
 	"fmt"
 	"io"
+	"net"
 	"net/http"
 	"sync"
 	"time"
@@ -231,3 +233,58 @@ func NewRecorder() *Recorder     { return newRecorder() }
 func (r *recorder) Code() int    { return r.code }
 func (r *recorder) Body() []byte { return r.b.Bytes() }
 func (r *recorder) Wrote() bool  { return r.wrote }
+
+// HijackRecorder is a ResponseWriter whose connection can be taken over
+// (http.Hijacker), as falco's proxy-response mode does. What the handler
+// writes to the connection, and whether and when it closed it, is recorded.
+type HijackRecorder struct {
+	recorder
+	Hijacked bool
+	conn     *recConn
+}
+
+func NewHijackRecorder() *HijackRecorder {
+	return &HijackRecorder{recorder: *newRecorder()}
+}
+
+func (h *HijackRecorder) Hijack() (net.Conn, *bufio.ReadWriter, error) {
+	h.Hijacked = true
+	h.conn = &recConn{}
+	return h.conn, bufio.NewReadWriter(bufio.NewReader(h.conn), bufio.NewWriter(h.conn)), nil
+}
+
+// Closed reports whether the handler closed the taken-over connection.
+func (h *HijackRecorder) Closed() bool { return h.conn != nil && h.conn.isClosed() }
+
+// Wire is what was written to the taken-over connection so far.
+func (h *HijackRecorder) Wire() []byte {
+	if h.conn == nil {
+		return nil
+	}
+	h.conn.mu.Lock()
+	defer h.conn.mu.Unlock()
+	return append([]byte{}, h.conn.b.Bytes()...)
+}
+
+type recConn struct {
+	mu     sync.Mutex
+	b      bytes.Buffer
+	closed bool
+}
+
+func (c *recConn) isClosed() bool             { c.mu.Lock(); defer c.mu.Unlock(); return c.closed }
+func (c *recConn) Read(p []byte) (int, error) { return 0, io.EOF }
+func (c *recConn) Write(p []byte) (int, error) {
+	c.mu.Lock()
+	defer c.mu.Unlock()
+	if c.closed {
+		return 0, net.ErrClosed
+	}
+	return c.b.Write(p)
+}
+func (c *recConn) Close() error                       { c.mu.Lock(); c.closed = true; c.mu.Unlock(); return nil }
+func (c *recConn) LocalAddr() net.Addr                { return &net.TCPAddr{IP: net.IPv4(192, 0, 2, 1), Port: 80} }
+func (c *recConn) RemoteAddr() net.Addr               { return &net.TCPAddr{IP: net.IPv4(192, 0, 2, 10), Port: 4000} }
+func (c *recConn) SetDeadline(t time.Time) error      { return nil }
+func (c *recConn) SetReadDeadline(t time.Time) error  { return nil }
+func (c *recConn) SetWriteDeadline(t time.Time) error { return nil }
